@@ -13,8 +13,8 @@ ASSUMPTIONS = ["reference serialiser vf/ref/sighash.py (self-tested against the 
 NSHARDS = {"quick": 32, "thorough": 64}
 BUDGET_S = {"quick": 200, "thorough": 1800}
 MIN_HITS = {
-    'quick': {"flag_41": 478, "flag_42": 473, "flag_43": 467, "flag_c1": 455, "flag_c2": 451, "flag_c3": 465, "idx>=1": 1442, "nonpalindromic_seq": 2707, "sign": 163, "subscript>=65536": 3, "single_without_output": 311},
-    'thorough': {"flag_41": 688233, "flag_43": 688105, "flag_c3": 688066, "idx>=1": 2125077, "nonpalindromic_seq": 4071680, "sign": 96003, "subscript>=65536": 3},
+    'quick': {"flag_41": 487, "flag_42": 480, "flag_43": 476, "flag_c1": 462, "flag_c2": 462, "flag_c3": 471, "idx>=1": 1427, "nonpalindromic_seq": 2755, "sign": 163, "subscript>=65536": 3, "single_without_output": 296},
+    'thorough': {"flag_41": 688236, "flag_43": 688126, "flag_c3": 688068, "idx>=1": 2125084, "nonpalindromic_seq": 4071738, "sign": 96003, "subscript>=65536": 3},
 }
 
 
